@@ -210,15 +210,44 @@ fn one(out: &mut Out, r: &mut Rng, store: &Arc<Store>, path: &RepoPath, ids: &Id
     }
 }
 
+fn one_unedited_word(out: &mut Out, store: &Arc<Store>, path: &RepoPath, ids: &Ids) {
+    let contents = conflicts::extract_as_single_hunk(ids, store, path).block_on().unwrap();
+    let old = files::merge_hunks(&contents, store.merge_options());
+    let len = conflicts::choose_materialized_conflict_marker_len(&contents);
+    let mo = ConflictMaterializeOptions { marker_style: ConflictMarkerStyle::Diff, marker_len: Some(len), merge: store.merge_options().clone() };
+    let text: BString = conflicts::materialize_merge_result_to_bytes(&contents, &ConflictLabels::unlabeled(), &mo);
+    if let Some(back) = run_update(out, store, path, ids, &old, &text, len) {
+        out.tally("stream", "crafted-word-merge");
+        if back == *ids { out.oracle_ok(); } else {
+            out.oracle_fail("unedited:word-merge-synthesized-marker-in-resolved-hunk",
+                format!("hunk-level=word len={len} ids={} back={} text={:?}", show_ids(store, path, ids), show_ids(store, path, &back), text));
+        }
+    }
+}
+
 pub fn run(cfg: &Cfg, out: &mut Out) {
     let test_repo = TestRepo::init();
     let store = test_repo.repo.store().clone();
     let path = repo_path("file");
     let mut r = cfg.rng(6);
-    for i in 0..cfg.n(2500, 60_000) {
+    for i in 0..cfg.n(4000, 60_000) {
         let plain = i % 3 != 2;
         let ids = gen_ids(&mut r, &store, path, if plain { PLAIN } else { TRICKY });
         one(out, &mut r, &store, path, &ids, plain);
+    }
+    // the C05 finding seen through update_from_content: with merge.hunk-level = "word" an unedited
+    // materialized file can be recorded as a different conflict (crafted input, see notes/C05.md)
+    {
+        let mut config = testutils::base_user_config();
+        config.add_layer(jj_lib::config::ConfigLayer::parse(jj_lib::config::ConfigSource::User, "merge.hunk-level = \"word\"").unwrap());
+        let settings = jj_lib::settings::UserSettings::from_config(config).unwrap();
+        let word_repo = TestRepo::init_with_settings(&settings);
+        let wstore = word_repo.repo.store().clone();
+        let base = b"<<<<x<<<<<y\na\n||||x|||||y\nb\n====x=====y\nc\n>>>>x>>>>>y\nsep\nq\n".to_vec();
+        let side1: Vec<u8> = base.iter().copied().filter(|b| *b != b'x').flat_map(|b| if b == b'q' { b"q1".to_vec() } else { vec![b] }).collect();
+        let side2: Vec<u8> = base.iter().copied().filter(|b| *b != b'y').flat_map(|b| if b == b'q' { b"q2".to_vec() } else { vec![b] }).collect();
+        let ids = Merge::from_vec(vec![Some(write(&wstore, path, &side1)), Some(write(&wstore, path, &base)), Some(write(&wstore, path, &side2))]);
+        one_unedited_word(out, &wstore, path, &ids);
     }
     out.note("ids by content; 2–3 sides plus up to 2 redundant pairs, absent sides 1/7; every style; edits replace one resolved region of the materialized text".into());
 }
